@@ -183,6 +183,10 @@ func (p *Parser) ParseStatements(ctx context.Context) ([]ast.Statement, error) {
 		}
 	}
 
+	// A failed read ends the token stream like end of input does; report it
+	if err := p.lexer.Err(); err != nil {
+		return statements, fmt.Errorf("read error: %w", err)
+	}
 	if len(p.errors) > 0 {
 		return statements, fmt.Errorf("parse errors: %v", p.errors)
 	}
